@@ -563,16 +563,13 @@ class BaseCurve(Intface_BaseCurve):
         if oldctrlpoints is None and oldweights is None:
             self.knotvector = newknotvector
             return
-        self.ctrlpoints = None
-        self.weights = None
-        self.knotvector = newknotvector
+        newweights = None
+        newctrlpoints = None
         if oldweights is None:
-            self.ctrlpoints = np.dot(matrix, oldctrlpoints)
-            return
-        newweights = np.dot(matrix, oldweights)
-        self.weights = newweights
-
-        if oldctrlpoints is not None:
+            newctrlpoints = np.dot(matrix, oldctrlpoints)
+        else:
+            newweights = tuple(np.dot(matrix, oldweights))
+        if oldweights is not None and oldctrlpoints is not None:
             oldctrlpoints = list(oldctrlpoints)
             for i, weight in enumerate(oldweights):
                 oldctrlpoints[i] = oldctrlpoints[i] * weight
@@ -581,9 +578,13 @@ class BaseCurve(Intface_BaseCurve):
                 newctrlpoints.append(0 * oldctrlpoints[0])
                 for j, point in enumerate(oldctrlpoints):
                     newpoint = line[j] * point
-                    newpoint /= self.weights[i]
+                    newpoint /= newweights[i]
                     newctrlpoints[i] += newpoint
-            self.ctrlpoints = newctrlpoints
+        self.ctrlpoints = None
+        self.weights = None
+        self.knotvector = newknotvector
+        self.weights = newweights
+        self.ctrlpoints = newctrlpoints
 
 
 class Curve(BaseCurve):
